@@ -86,5 +86,7 @@ int current_thread() noexcept;                // 0-based index within the case, 
 bool in_dry_run() noexcept;
 void advance_clock_ns(long long d) noexcept;  // harness-driven clock advance
 long long steps_so_far() noexcept;
+int thread_count() noexcept;                  // threads created so far in this run (including thread 0)
+int live_threads() noexcept;                  // threads of this run that have not finished yet (including the caller)
 
 }  // namespace detsched
